@@ -64,6 +64,7 @@ type Contract struct {
 	Loops    []*Clause
 	Trusted  bool
 	Touches  []*Clause // objects whose fields (and nothing else of their struct types) the function may change
+	WritesTo []*Clause // writers/readers/hashes whose ghost state (and no other object's) the function may change
 	Modifies []string
 	HasMods  bool
 	NoInline bool
@@ -87,7 +88,7 @@ type ContractSet struct {
 }
 
 var blockRe = regexp.MustCompile(`(?s)/\*@(.*?)@\*/`)
-var clauseHead = regexp.MustCompile(`^(requires|ensures|tags|safety|loop|modifies|touches|trusted|noinline|inline)\b`)
+var clauseHead = regexp.MustCompile(`^(requires|ensures|tags|safety|loop|modifies|touches|writesto|trusted|noinline|inline)\b`)
 
 // rewriteImp turns `a ==> b` (lowest precedence, right associative) into imp(a, b), recursively inside brackets.
 func rewriteImp(s string) string {
@@ -291,6 +292,27 @@ func (cs *ContractSet) parseBlock(file string, line0 int, body string) {
 			c.NoInline = true
 		case "inline":
 			c.Inline = true
+		case "writesto":
+			for _, part := range splitTop(rest, ",") {
+				part = strings.TrimSpace(part)
+				if part == "" || part == "nothing" {
+					c.WritesTo = append(c.WritesTo, &Clause{Kind: "writesto", Src: "nothing", File: file, Line: it.line})
+					continue
+				}
+				role := "writer"
+				for _, r := range []string{"hash", "reader", "writer"} {
+					if strings.HasPrefix(part, r+" ") {
+						role = r
+						part = strings.TrimSpace(strings.TrimPrefix(part, r+" "))
+					}
+				}
+				ex, err := parseSpecExpr(part)
+				if err != nil {
+					cs.errf(file, it.line, "%s: %v in %q", key, err, part)
+					continue
+				}
+				c.WritesTo = append(c.WritesTo, &Clause{Kind: "writesto", Src: part, Expr: ex, File: file, Line: it.line, Label: role})
+			}
 		case "touches":
 			for _, part := range splitTop(rest, ",") {
 				part = strings.TrimSpace(part)
@@ -861,6 +883,14 @@ func (e *Engine) evalCall(env *Env, n *ast.CallExpr) (Val, types.Type) {
 			body = e.evalBool(inner, n.Args[1])
 		}
 		e.useQuant = true
+		// Re-parametrise by the absolute index of the slice the variable indexes most often: with j = off + k the body
+		// mentions (select row j) instead of (select row (+ off k)), which e-matching can instantiate reliably.
+		if off := dominantOffset(body, bv); off != "" {
+			jv := q(fmt.Sprintf("%s@%d", id.Name, e.n))
+			nb := strings.ReplaceAll(body, "(+ "+off+" "+bv+")", jv)
+			nb = strings.ReplaceAll(nb, bv, "(- "+jv+" "+off+")")
+			return Sc{fmt.Sprintf("(%s ((%s Int)) %s)", fname, jv, nb)}, tBool
+		}
 		return Sc{fmt.Sprintf("(%s ((%s Int)) %s)", fname, bv, body)}, tBool
 	case "ite":
 		if !need(3) {
@@ -1040,6 +1070,60 @@ func (e *Engine) evalCall(env *Env, n *ast.CallExpr) (Val, types.Type) {
 	return Sc{"true"}, tBool
 }
 
+// dominantOffset finds the offset term T that occurs most often as "(+ T bv)" in body.
+func dominantOffset(body, bv string) string {
+	counts := map[string]int{}
+	suffix := " " + bv + ")"
+	for i := 0; ; {
+		k := strings.Index(body[i:], suffix)
+		if k < 0 {
+			break
+		}
+		end := i + k // position of the space before bv
+		// walk back to the matching "(+ "
+		depth := 0
+		start := -1
+		for p := end - 1; p >= 0; p-- {
+			c := body[p]
+			if c == ')' {
+				depth++
+			} else if c == '(' {
+				if depth == 0 {
+					start = p
+					break
+				}
+				depth--
+			}
+		}
+		if start >= 0 && strings.HasPrefix(body[start:], "(+ ") {
+			t := body[start+3 : end]
+			// t must be a single term (balanced, no top-level space)
+			d := 0
+			single := true
+			for _, c := range t {
+				if c == '(' {
+					d++
+				} else if c == ')' {
+					d--
+				} else if c == ' ' && d == 0 {
+					single = false
+				}
+			}
+			if single && d == 0 && t != "" && !strings.Contains(t, bv) {
+				counts[t]++
+			}
+		}
+		i = end + len(suffix)
+	}
+	best, bn := "", 0
+	for t, n := range counts {
+		if n > bn || (n == bn && t < best) {
+			best, bn = t, n
+		}
+	}
+	return best
+}
+
 func sliceOrScalar(e *Engine, v Val) string {
 	if s, ok := v.(SliceV); ok {
 		return s.B
@@ -1051,6 +1135,17 @@ var basicByName = map[string]types.Type{
 	"int": types.Typ[types.Int], "int8": types.Typ[types.Int8], "int16": types.Typ[types.Int16], "int32": types.Typ[types.Int32], "int64": types.Typ[types.Int64],
 	"uint": types.Typ[types.Uint], "uint8": types.Typ[types.Uint8], "uint16": types.Typ[types.Uint16], "uint32": types.Typ[types.Uint32], "uint64": types.Typ[types.Uint64],
 	"byte": types.Typ[types.Uint8], "string": types.Typ[types.String], "bool": types.Typ[types.Bool],
+}
+
+// ghostRole: which ghost components belong to which kind of object.
+func ghostRole(role string) []string {
+	switch role {
+	case "hash":
+		return []string{"crc_lo", "crc_hi", "crc_src"}
+	case "reader":
+		return []string{"rd_pos", "rd_left"}
+	}
+	return []string{"wr_failed", "wr_offered", "wr_calls"}
 }
 
 // ghostSorts lists the ghost heap components (element sort; all indexed by object reference).
@@ -1134,6 +1229,9 @@ func (f *frame) bindLocals(env *Env, at *ssa.BasicBlock, phis map[*ssa.Phi]Val) 
 			if !ok {
 				continue
 			}
+			if vobj, isVar := dr.Object().(*types.Var); !isVar || vobj.IsField() {
+				continue // field names and non-variables are not locals
+			}
 			if _, have := f.vals[dr.X]; !have {
 				if _, isC := dr.X.(*ssa.Const); !isC {
 					continue
@@ -1169,6 +1267,12 @@ func (f *frame) bindLocals(env *Env, at *ssa.BasicBlock, phis map[*ssa.Phi]Val) 
 					}
 				}
 			}
+		}
+	}
+	// range loops: iter = number of completed iterations (the hidden index of go/ssa's lowering, plus one)
+	for p, v := range phis {
+		if p.Comment == "rangeindex" {
+			env.vars["iter"] = TV{Sc{fmt.Sprintf("(+ %s 1)", f.e.scalar(v))}, tInt}
 		}
 	}
 	// phis of the loop head win: they are the variables the loop changes
